@@ -591,14 +591,8 @@ func (g *Gen) frameItems(ctx *specCtx, e Expr) []frameItem {
 			loc = g.evalSpec(ctx, x.X)
 		}
 	case *ESel:
-		base := g.evalSpec(ctx, x.X)
-		if p, ok := base.(PtrV); ok && p.Cell == nil {
-			if i, ft, ok := structFieldIndex(p.Elem, x.F); ok {
-				np := p
-				np.Steps = append(append([]pstep(nil), p.Steps...), pstep{Field: i, Name: x.F})
-				np.Elem = ft
-				loc = np
-			}
+		if l, ok := g.evalLoc(ctx, x); ok {
+			loc = l
 		}
 	case *EIndex:
 		base := g.evalSpec(ctx, x.X)
@@ -923,4 +917,51 @@ func mentions(e Expr, names map[string]bool) bool {
 		return mentions(x.Body, names)
 	}
 	return false
+}
+
+// evalLoc evaluates an lvalue expression (x.f, x.f.g, *p) to the heap location it denotes.
+func (g *Gen) evalLoc(ctx *specCtx, e Expr) (PtrV, bool) {
+	switch x := e.(type) {
+	case *ESel:
+		var base PtrV
+		found := false
+		if inner, ok := x.X.(*ESel); ok {
+			if l, ok := g.evalLoc(ctx, inner); ok {
+				if _, isPtr := l.Elem.Underlying().(*types.Pointer); isPtr {
+					// field of pointer type: follow the pointer
+					if pv, ok := g.loadHeap(ctx.st, l).(PtrV); ok {
+						base, found = pv, true
+					}
+				} else {
+					base, found = l, true
+				}
+			}
+		}
+		if !found {
+			v := g.evalSpec(ctx, x.X)
+			pv, ok := v.(PtrV)
+			if !ok || pv.Cell != nil {
+				return PtrV{}, false
+			}
+			base = pv
+		}
+		if emb := promotedVia(base.Elem, x.F); emb != "" {
+			return g.evalLoc(ctx, &ESel{X: &ESel{X: x.X, F: emb}, F: x.F})
+		}
+		i, ft, ok := structFieldIndex(base.Elem, x.F)
+		if !ok {
+			return PtrV{}, false
+		}
+		np := base
+		np.Steps = append(append([]pstep(nil), base.Steps...), pstep{Field: i, Name: x.F})
+		np.Elem = ft
+		return np, true
+	case *EUnary:
+		if x.Op == "*" {
+			if pv, ok := g.evalSpec(ctx, x.X).(PtrV); ok && pv.Cell == nil {
+				return pv, true
+			}
+		}
+	}
+	return PtrV{}, false
 }
